@@ -2,6 +2,7 @@
 # usage: seed_check.sh <ID> [check-id...]  — applies /verif/seeded/<ID>/patch.diff to /repo, runs the checks, undoes it
 ID=$1; shift; CHECKS=${@:-$ID}
 cd /verif
+[ "$VERIF_REPO_LOCK_HELD" = 1 ] || exec /verif/tools/with_repo_mutation.sh "/verif/tools/seed_check.sh $ID $CHECKS"
 git -C /repo apply /verif/seeded/$ID/patch.diff || { echo "patch does not apply to /repo"; exit 2; }
 for c in $CHECKS; do
   echo "== ./check $c with seeded $ID"; timeout 3000 ./check $c > /tmp/seedcheck_$ID_$c.out 2> /tmp/seedcheck_$ID_$c.err; echo "rc=$?"; cat /tmp/seedcheck_$ID_$c.out; tail -2 /tmp/seedcheck_$ID_$c.err
